@@ -27,6 +27,10 @@ class Sub:
         self.quick = ctx.quick
         self.seed = ctx.seed
 
+    def __getattr__(self, name):
+        # anything else (overlay_root, extra, notes, drive_modules, np_rng ...) is the main context's
+        return getattr(self.ctx, name)
+
     def lean(self, lines):
         return self.ctx.lean(lines)
 
